@@ -67,6 +67,26 @@ def _call_pred(I, st, cl, arg, fn, line, depth):
 def nexts(I, st, it, fn, line, depth):
     """pull one item: -> list of (tag, new_iter, item, state), tag in item|done|unwind|cut"""
     kind = it[2]
+    if kind == "local":
+        # a crate-local iterator struct: one step = one call of its own `next(&mut self)`
+        v = it[4][0]
+        lfn = _local_next(I, v[2])
+        if lfn is None or "mir" not in lfn:
+            raise Undecided("no Iterator::next body for %s" % v[2])
+        tf = st.fresh("it")
+        st.mem[(tf, 0)] = v
+        out = []
+        for knd, val, s2 in I.inline(st, lfn, [Ref(("L", tf, 0, ()))], depth):
+            if knd != "ret":
+                out.append((knd if knd in ("unwind", "cut") else "cut", None, None, s2))
+                continue
+            nv = s2.mem.get((tf, 0), v)
+            for k, payload, s3 in I.variants_of(s2, val):
+                if k == 1:
+                    out.append(("item", _iter("local", [nv]), payload, s3))
+                else:
+                    out.append(("done", it, None, s3))
+        return out
     if kind in ("ref", "val"):
         v, pos = it[4]
         lid, hi = v[2], v[4][1][1]
@@ -407,6 +427,34 @@ def m_index(I, st, fn, ce, args, line, depth, dest_ty, may_unwind):
     raise Undecided("index of a modelled list with %r" % (ix,))
 
 
+def m_slice_get(I, st, fn, ce, args, line, depth, dest_ty, may_unwind):
+    """`slice.get(i)` / `get_mut(i)` / `first()` / `last()`: Some(&elem) inside the bounds, None outside (never panics)"""
+    v = as_view(I, st, args[0])
+    if v is None:
+        return None
+    lid, lo, hi = v[2], v[4][0][1], v[4][1][1]
+    nm = ce["def"].split("::")[-1]
+    if nm in ("first", "first_mut"):
+        k = lo
+    elif nm in ("last", "last_mut"):
+        k = hi - 1
+    else:
+        ix = args[1]
+        if not (ix[0] == "const" and isinstance(ix[1], int) and not isinstance(ix[1], bool)):
+            if ix[0] == "agg":
+                # a range: like indexing, but out of range gives None
+                try:
+                    r = m_index(I, st.fork(), fn, ce, args, line, depth, dest_ty, may_unwind)
+                except Undecided:
+                    return None
+                return [("ret", _opt(1, [val]), s2) if kind == "ret" else ("ret", _opt(0, []), st) for kind, val, s2 in r]
+            return None
+        k = lo + ix[1]
+    if k < lo or k >= hi:
+        return [("ret", _opt(0, []), st)]
+    return [("ret", _opt(1, [Ref(elem_loc(lid, k))]), st)]
+
+
 def m_is_empty(I, st, fn, ce, args, line, depth, dest_ty, may_unwind):
     v = as_view(I, st, args[0])
     if v is None:
@@ -532,7 +580,7 @@ def m_collect(I, st, fn, ce, args, line, depth, dest_ty, may_unwind):
                 continue
             keys = []
             for x in g[0]:
-                k = x[1] if x[0] == "const" else addr_of(I, x)
+                k = x[1] if x[0] == "const" else _addr_or_slot(I, x)
                 if k is None:
                     raise Undecided("set element %r has no model address" % (x,))
                 if Const(k) not in keys:
@@ -572,6 +620,19 @@ def addr_of(I, v):
     if any(p != "*" for p in loc[2][1:]):
         return None
     return A[loc[1]][int(k[1:-1])]
+
+
+def _addr_or_slot(I, v):
+    """address used as a set element: the model address of a leaf, or - for a pointer to a *slot* of some other modelled
+    list (`locks.iter()` instead of `into_iter()`: the address of the place holding the reference) - a token unique to that
+    slot: all slots are different places, whatever they refer to"""
+    a = addr_of(I, v)
+    if a is not None:
+        return a
+    loc = v[1] if v[0] == "ref" else (I.oploc.get(v[1]) if v[0] == "op" else None)
+    if loc and loc[0] == "O" and loc[1] in I.lists and len(loc[2]) == 1 and str(loc[2][0]).startswith("["):
+        return "slot:%s%s" % (loc[1], loc[2][0])
+    return None
 
 
 def m_sort_by_key(I, st, fn, ce, args, line, depth, dest_ty, may_unwind):
@@ -852,7 +913,7 @@ def m_set_insert(I, st, fn, ce, args, line, depth, dest_ty, may_unwind):
     if not (sv[0] == "agg" and sv[1] == "set"):
         return None
     x = args[1]
-    key = x[1] if x[0] == "const" else addr_of(I, x)
+    key = x[1] if x[0] == "const" else _addr_or_slot(I, x)
     if key is None:
         raise Undecided("set element %r has no model address" % (x,))
     I.emit(st, {"k": "SET_INSERT", "key": key}, fn, line)
@@ -871,7 +932,7 @@ def m_set_contains(I, st, fn, ce, args, line, depth, dest_ty, may_unwind):
     x = args[1]
     if x[0] == "ref":
         x = I.load(st, x[1])
-    key = x[1] if x[0] == "const" else addr_of(I, x)
+    key = x[1] if x[0] == "const" else _addr_or_slot(I, x)
     if key is None:
         raise Undecided("set element %r has no model address" % (x,))
     return [("ret", Const(Const(key) in sv[4]), st)]
@@ -1178,7 +1239,16 @@ def _range_as_iter(I, st, v):
     if w[0] == "agg" and w[1] == "adt" and str(w[2]).endswith("::Range") and len(w[4]) == 2 and \
             all(x[0] == "const" and isinstance(x[1], int) and not isinstance(x[1], bool) for x in w[4]):
         return _iter("range", [w[4][0], w[4][1]])
+    if w[0] == "agg" and w[1] == "adt" and w[2] in I.F.adts and _local_next(I, w[2]) is not None:
+        return _iter("local", [w])      # a crate-local type with its own Iterator impl: driven through its `next`
     return v
+
+
+def _local_next(I, adt_path):
+    try:
+        return I.resolve_local_impl("std::iter::Iterator", "next", [{"k": "adt", "path": adt_path, "args": [], "s": adt_path}])
+    except Exception:
+        return None
 
 
 def _with_ranges(f):
@@ -1212,6 +1282,9 @@ def install():
     M["std::iter::Iterator::zip"] = m_zip
     M["std::iter::Iterator::find"] = m_find
     M["std::iter::Iterator::position"] = m_position
+    for nm in ("get", "get_mut", "first", "first_mut", "last", "last_mut"):
+        M["core::slice::<impl [T]>::" + nm] = m_slice_get
+        M["std::slice::<impl [T]>::" + nm] = m_slice_get
     M["core::slice::<impl [T]>::split_at"] = m_split_at
     M["core::slice::<impl [T]>::split_first"] = m_split_first
     M["std::collections::HashSet::<T, S, A>::len"] = m_set_len
@@ -1234,6 +1307,8 @@ def install():
     M["core::slice::<impl [T]>::into_vec"] = interp.m_identity
     M["<std::boxed::Box<T, A> as std::ops::Deref>::deref"] = m_box_deref
     M["<std::boxed::Box<T, A> as std::ops::DerefMut>::deref_mut"] = m_box_deref
+    M["<std::sync::Arc<T, A> as std::ops::Deref>::deref"] = interp.m_rc_deref
+    M["<std::rc::Rc<T, A> as std::ops::Deref>::deref"] = interp.m_rc_deref
     for nm in ("sort_by_key", "sort_unstable_by_key", "sort_by_cached_key"):
         M["core::slice::<impl [T]>::" + nm] = m_sort_by_key
         M["std::slice::<impl [T]>::" + nm] = m_sort_by_key
